@@ -226,11 +226,25 @@ fn harvest_block(block: &str, origin: &str, out: &mut Vec<Program>) {
 const FN_NAMES: [&str; 6] = ["foo", "bar", "baz", "arg1", "f", "get"];
 const TRAIT_NAMES: [&str; 6] = ["Foo", "Bar", "Baz", "Send", "Repo", "Get"];
 const DEP_TRAITS: [&str; 4] = ["Bar", "Baz", "Clock", "Repo"];
-const TYPES: [&str; 8] = ["i32", "u8", "String", "(i32, i32)", "&str", "Foo", "Option<i32>", "[u8; 2]"];
-const RETS: [&str; 6] = ["", "-> i32", "-> String", "-> &str", "-> Result<i32, ()>", "-> impl Clone"];
+const TYPES: [&str; 20] = [
+    "i32", "u8", "String", "(i32, i32)", "&str", "Foo", "Option<i32>", "[u8; 2]", "&'a str", "&mut Vec<u8>",
+    "impl Fn(i32) -> i32", "impl Into<String> + Send", "&dyn std::fmt::Debug", "Box<dyn Fn() + Send>", "T", "&[T]",
+    "std::sync::Arc<Foo>", "&&i32", "fn(i32) -> i32", "[u8; N]",
+];
+const RETS: [&str; 12] = [
+    "", "-> i32", "-> String", "-> &str", "-> Result<i32, ()>", "-> impl Clone", "-> ()", "-> &'a str", "-> Box<dyn std::fmt::Debug + 'a>",
+    "-> (i32, String)", "-> impl std::future::Future<Output = i32> + Send", "-> Option<&'a Foo>",
+];
 
 fn gen_pattern(rng: &mut Rng, idx: usize, fn_name: &str) -> String {
-    match rng.below(14) {
+    match rng.below(21) {
+        14 => format!("ref q{idx}"),
+        15 => format!("mut m{idx}"),
+        16 => format!("w{idx} @ _"),
+        17 => format!("((c{idx}, d{idx}), e{idx})"),
+        18 => format!("&(f{idx}, g{idx})"),
+        19 => format!("[h{idx}, i{idx}]"),
+        20 => format!("S {{ a, .. }}"),
         0 => format!("p{idx}"),
         1 => format!("mut p{idx}"),
         2 => format!("r#type"),
@@ -266,10 +280,32 @@ fn gen_fn_text(rng: &mut Rng, name: &str, in_container: bool) -> String {
         *rng.pick(&["", "pub", "pub(crate)"])
     };
     let asyncness = if rng.chance(300) { "async " } else { "" };
-    let quals = if rng.chance(40) { "unsafe " } else { "" };
+    let quals = match rng.below(40) {
+        0 => "unsafe ",
+        1 => "const ",
+        2 => "extern \"C\" ",
+        3 => "unsafe extern \"C\" ",
+        _ => "",
+    };
     let mut generics = String::new();
     let mut where_clause = String::new();
-    let dep = match rng.below(9) {
+    let dep = match rng.below(17) {
+        9 => format!("deps: &(impl {} + {} + 'static)", rng.pick(&DEP_TRAITS), rng.pick(&DEP_TRAITS)),
+        10 => {
+            generics = "<'b, D, T, const N: usize>".to_string();
+            where_clause = format!(" where D: {} + {}, D: {}, T: Into<String>, for<'x> &'x T: Send", rng.pick(&DEP_TRAITS), rng.pick(&DEP_TRAITS), rng.pick(&DEP_TRAITS));
+            "deps: &'b D".to_string()
+        }
+        11 => format!("deps: &dyn {}", rng.pick(&DEP_TRAITS)),
+        12 => format!("deps: &mut impl {}", rng.pick(&DEP_TRAITS)),
+        13 => "deps: &crate::app::State".to_string(),
+        14 => "deps: &(A, B)".to_string(),
+        15 => format!("deps: std::sync::Arc<impl {}>", rng.pick(&DEP_TRAITS)),
+        16 => {
+            generics = format!("<D: {} + {}>", rng.pick(&DEP_TRAITS), rng.pick(&DEP_TRAITS));
+            where_clause = format!(" where D: {} + Send", rng.pick(&DEP_TRAITS));
+            "deps: &D".to_string()
+        }
         0 => format!("deps: &impl {}", rng.pick(&DEP_TRAITS)),
         1 => format!("deps: &(impl {} + {})", rng.pick(&DEP_TRAITS), rng.pick(&DEP_TRAITS)),
         2 => {
@@ -300,11 +336,15 @@ fn gen_fn_text(rng: &mut Rng, name: &str, in_container: bool) -> String {
     }
     let ret = *rng.pick(&RETS);
     let body = *rng.pick(&["{ 42 }", "{ todo!() }", "{ let x = |a| a; unimplemented!() }", "{}"]);
-    let attrs = match rng.below(12) {
+    let attrs = match rng.below(18) {
         0 => "#[cfg(test)] ",
         1 => "/// doc\n",
         2 => "#[async_trait::async_trait] ",
         3 => "#[inline] #[must_use] ",
+        4 => "#[doc = \"x\"] #[allow(clippy::all)] ",
+        5 => "#[tracing::instrument(skip(deps))] ",
+        6 => "#[cfg_attr(test, inline)] /** block doc */ ",
+        7 => "#[cfg(all(unix, not(feature = \"x\")))] ",
         _ => "",
     };
     let vis_sp = if vis.is_empty() { String::new() } else { format!("{vis} ") };
@@ -367,7 +407,14 @@ fn gen_fn_attr(rng: &mut Rng) -> (String, Vec<String>) {
 }
 
 fn gen_unknown_item(rng: &mut Rng) -> String {
-    match rng.below(8) {
+    match rng.below(15) {
+        8 => "pub mod inner { pub fn nested(deps: &impl Bar) {} }".to_string(),
+        9 => "extern \"C\" { pub fn c_decl(x: i32); }".to_string(),
+        10 => "pub static COUNTER: std::sync::atomic::AtomicUsize = std::sync::atomic::AtomicUsize::new(0);".to_string(),
+        11 => "pub(in crate::m) fn scoped(deps: &impl Baz, a: i32) -> i32 { a }".to_string(),
+        12 => "pub trait Local { fn l(&self); }".to_string(),
+        13 => "#[cfg(test)] mod tests { use super::*; #[test] fn t() {} }".to_string(),
+        14 => "pub type Alias = Result<i32, ()>;".to_string(),
         0 => "struct S { a: i32 }".to_string(),
         1 => "const K: usize = 3;".to_string(),
         2 => "use super::*;".to_string(),
@@ -403,13 +450,34 @@ fn gen_trait_text(rng: &mut Rng, name: &str) -> String {
     if rng.chance(40) {
         items.push("const C: u8;".to_string());
     }
-    let generics = if rng.chance(150) { "<T>" } else { "" };
-    let supers = if rng.chance(150) { ": Sized + 'static" } else { "" };
+    let generics = match rng.below(12) {
+        0 | 1 => "<T>",
+        2 => "<T: Clone + Send, U>",
+        3 => "<'t, T: 't>",
+        4 => "<const N: usize>",
+        _ => "",
+    };
+    if rng.chance(80) {
+        items.push("type Out: Send + 'static;".to_string());
+    }
+    if rng.chance(60) {
+        items.push("fn generic_m<V: Into<String>>(&self, v: V) -> String where V: Send;".to_string());
+    }
+    if rng.chance(60) {
+        items.push("#[cfg(test)] fn only_in_test(&self);".to_string());
+    }
+    let supers = match rng.below(12) {
+        0 | 1 => ": Sized + 'static",
+        2 => ": Send + Sync",
+        3 => ": Bar + Baz",
+        _ => "",
+    };
     let attrs = if rng.chance(150) { "#[async_trait::async_trait] " } else { "" };
     let vis = *rng.pick(&["", "pub ", "pub(crate) "]);
     let unsafety = if rng.chance(30) { "unsafe " } else { "" };
+    let wh = if rng.chance(80) { " where Self: Sized" } else { "" };
     format!(
-        "{attrs}{vis}{unsafety}trait {name}{generics}{supers} {{ {} }}",
+        "{attrs}{vis}{unsafety}trait {name}{generics}{supers}{wh} {{ {} }}",
         items.join(" ")
     )
 }
